@@ -78,11 +78,30 @@ def gen_l1(rng, n, prefix="a"):
             kv.update(endt=b"<!--end-->".hex())
         yield "L1 %s%d %s ops=%s" % (prefix, i, " ".join("%s=%s" % x for x in kv.items()), ops_of(chunkings(rng, data)))
 
+def gen_l1fail(rng, n, prefix="f"):
+    """failure-heavy histories: a handler failure or a memory failure at a random point, more calls afterwards"""
+    for i in range(n):
+        data = doc(rng, 14) if rng.randrange(3) else wellformed(rng)
+        seed = rng.choice([0, 1, 5, 9, 13, 4, 7]) + 32 * rng.randrange(3)
+        kv = dict(seed=seed, strict=0)
+        if rng.randrange(2):
+            kv.update(fail=1 + rng.randrange(10), bh=rng.randrange(2), bm=rng.randrange(2))
+        else:
+            kv.update(mem=rng.randrange(0, 30), prealloc=0, bm=rng.randrange(2), bh=rng.randrange(2))
+        if rng.randrange(2): kv['bail'] = b"<!--bail-->".hex()
+        if rng.randrange(4) == 0: kv['endt'] = b"<!--end-->".hex()
+        ch = chunkings(rng, data)
+        extra = rng.randrange(3)
+        ops = ["W" + c.hex() for c in ch] + ["E"] + ["W" + b"<p>".hex()] * extra
+        yield "L1 %s%d %s ops=%s" % (prefix, i, " ".join("%s=%s" % x for x in kv.items()), ",".join(ops))
+
 def main():
     fam, seed, n = sys.argv[1], int(sys.argv[2]), int(sys.argv[3])
     rng = random.Random(seed)
     if fam == "l1":
         for l in gen_l1(rng, n): print(l)
+    elif fam == "l1fail":
+        for l in gen_l1fail(rng, n): print(l)
     else:
         sys.exit("unknown family " + fam)
 
